@@ -838,6 +838,80 @@ pub fn run_and_check(plan: &Arc<Plan>, pool: &mut Pool, rep: &mut Report, shared
     Some(full)
 }
 
+/// Sub-workload with *non-unique* messages: identical address-less logs (same text, level, source) sent repeatedly by
+/// 1..4 senders that are all joined before `collect()`. With identical payloads individual messages cannot be told
+/// apart, so the oracle is a multiset one: for every text, returned count == sent count (every send completed before
+/// collection, nothing may be lost or invented); with a single sender the returned sequence must equal the sent one.
+/// (The main workload gives every message a unique id, which by construction never exercises equal neighbours.)
+pub fn duplicate_text_history(rng: &mut Rng, rep: &mut Report) {
+    let n_threads = rng.range_usize(1, 4);
+    let texts = ["x", "y", "z"];
+    let plans: Vec<Vec<usize>> = (0..n_threads)
+        .map(|_| {
+            let k = rng.range_usize(1, 12);
+            let mut v = Vec::new();
+            let mut cur = rng.usize_below(3);
+            for _ in 0..k {
+                if rng.chance(1, 3) {
+                    cur = rng.usize_below(3);
+                }
+                v.push(cur);
+            }
+            v
+        })
+        .collect();
+    let with_level = rng.bool();
+    let log_thread = LogThread::spawn(LogThread::collect_and_deduplicate);
+    let mk = |i: usize| LogThreadMsg::Log(LogMessage { text: texts[i].to_string(), level: if with_level { LogLevel::Info } else { LogLevel::Debug }, location: None, source: None });
+    let handles: Vec<std::thread::JoinHandle<bool>> = plans
+        .iter()
+        .map(|p| {
+            let tx = log_thread.get_msg_sender();
+            let msgs: Vec<LogThreadMsg> = p.iter().map(|i| mk(*i)).collect();
+            std::thread::spawn(move || {
+                let mut ok = true;
+                for m in msgs {
+                    ok &= tx.send(m).is_ok();
+                }
+                ok
+            })
+        })
+        .collect();
+    let mut all_sent = true;
+    for h in handles {
+        all_sent &= h.join().unwrap_or(false);
+    }
+    let (logs, _cwes) = log_thread.collect();
+    rep.eval();
+    rep.obs("duplicate-text:histories");
+    let case = json!({"kind": "duplicate-text", "plans": plans, "with_level": with_level});
+    let returned: Vec<usize> = logs.iter().filter_map(|l| texts.iter().position(|t| *t == l.text)).collect();
+    if !all_sent {
+        rep.violation("duplicate-text:send-failed-before-collect", None, "a send on a live LogThread failed before collect() was called".to_string(), case, 1);
+        return;
+    }
+    let size: u64 = plans.iter().map(|p| p.len() as u64).sum();
+    for (i, t) in texts.iter().enumerate() {
+        let sent = plans.iter().flatten().filter(|x| **x == i).count();
+        let got = returned.iter().filter(|x| **x == i).count();
+        if sent != got {
+            rep.violation(
+                if got < sent { "duplicate-text:lost-message" } else { "duplicate-text:invented-message" },
+                None,
+                format!("{sent} address-less logs with text {t:?} were sent (all sends completed before collect) but {got} were returned; sent per sender: {plans:?}, returned: {returned:?}"),
+                case.clone(),
+                size,
+            );
+        }
+    }
+    if n_threads == 1 && returned.len() == plans[0].len() && returned != plans[0] {
+        rep.violation("duplicate-text:order", None, format!("single sender sent {:?} but {:?} was returned", plans[0], returned), case, size);
+    }
+    if plans.iter().any(|p| p.windows(2).any(|w| w[0] == w[1])) {
+        rep.nontrivial(fp_of(&plans) ^ 0xd0b1e);
+    }
+}
+
 fn run(cfg: &Cfg) -> Report {
     let shared = Shared::new();
     let shards = 128usize;
@@ -853,6 +927,9 @@ fn run(cfg: &Cfg) -> Report {
             if let (Some(a), Some(b)) = (a, b) {
                 rep.obs(if a == b { "plan:same-output-in-both-executions" } else { "plan:different-output-in-the-two-executions" });
             }
+        }
+        for _ in 0..plans_per_shard / 4 {
+            duplicate_text_history(rng, rep);
         }
     });
     let get = |rep: &Report, k: &str| rep.observed.get(k).copied().unwrap_or(0);
@@ -897,6 +974,16 @@ fn replay(cfg: &Cfg, case: &Value) -> Report {
             }
             Err(e) => rep.note(format!("cannot parse replay plan: {e}")),
         },
+        Some("duplicate-text") => {
+            // re-execute histories of the same shape (schedules cannot be pinned)
+            let mut rng = Rng::derive(cfg.seed, "c25-duplicate-replay", 0);
+            for _ in 0..2000 {
+                duplicate_text_history(&mut rng, &mut rep);
+                if !rep.violations.is_empty() {
+                    break;
+                }
+            }
+        }
         Some("miri") => {
             let histories = case["histories"].as_u64().unwrap_or(3);
             let seed = case["seed"].as_u64().unwrap_or(1);
